@@ -106,7 +106,7 @@ KNOWN_TRIGGERS = {
 # defects confirmed by this check whose proposed repair (proposed_fixes/C11_*.diff) is not yet in /repo:
 # their trigger regions are excluded by construction (and counted) so that the search continues behind them.
 # Remove a name once the repair is applied; the regression files then guard it.
-PENDING_REPAIR = ('direction_without_marker', 'single_pair_worker', 'pmask_single_cell_cluster')
+PENDING_REPAIR = ()   # D5/D6/D8 repairs are applied in /repo (see known_findings.json, 'fixed')
 
 
 def exclude(spec):
